@@ -603,6 +603,12 @@ func runC07(c *Ctx) {
 	// built without a base table: the caller's table must stay as the caller made it
 	sharedTable := &datalog.SymbolTable{}
 	sharedU := &biscuit.Unmarshaler{Symbols: sharedTable}
+	type sharedPrev struct {
+		tok  *biscuit.Biscuit
+		data []byte
+		ids  string
+	}
+	var prevShared *sharedPrev
 	for i := 0; i < n; i++ {
 		g := newScenGen(r, 2)
 		spec := TokenSpec{RootKeyID: Pick(r, ids), Seal: r.Chance(1, 4), ViaNew: r.Chance(1, 4)}
@@ -678,7 +684,24 @@ func runC07(c *Ctx) {
 		}
 		// implementation-only panel: before vs after the wire
 		if len(spec.Base) == 0 {
-			tok3, err := sharedU.Unmarshal(data)
+			// the bytes given to Unmarshal stay the caller's: the token must not depend on them
+			// afterwards (scribbled over below), nor on what the same Unmarshaler loads next
+			input := append([]byte{}, data...)
+			tok3, err := sharedU.Unmarshal(input)
+			for k := range input {
+				input[k] = 0xAA
+			}
+			if prevShared != nil {
+				if again, e := prevShared.tok.Serialize(); e != nil || !bytes.Equal(again, prevShared.data) || hexList(prevShared.tok.RevocationIds()) != prevShared.ids {
+					c.Violate("C07/unmarshaler-reuse", "a token loaded earlier by the same Unmarshaler changed when the next token was loaded (serialized form or revocation ids)", map[string]interface{}{"verb": "WIRE", "case": sx})
+				}
+			}
+			if err == nil {
+				if again, e := tok3.Serialize(); e != nil || !bytes.Equal(again, data) {
+					c.Violate("C07/input-buffer-retained", "the token's serialized form changed when the caller reused the buffer it had passed to Unmarshal", map[string]interface{}{"verb": "WIRE", "case": sx})
+				}
+				prevShared = &sharedPrev{tok: tok3, data: append([]byte{}, data...), ids: hexList(tok3.RevocationIds())}
+			}
 			c.Count("shared-unmarshaler")
 			switch {
 			case err != nil:
